@@ -130,3 +130,12 @@ mod tests {
         );
     }
 }
+
+#[cfg(chokan_verif)]
+impl SessionStore {
+    /// verification hook: number of live sessions
+    pub fn verif_len(&self) -> usize {
+        self.sessions.len()
+    }
+}
+
